@@ -843,6 +843,10 @@ pub fn sched_child(h_idx: usize, bound: usize, child: Option<usize>, stop_at: Op
     let mut viol: Option<Value> = None;
     let mut error: Option<String> = root.error.clone();
     let mut capped = false;
+    let mut deadlocked = false;
+    let mut deadlock_viol: Option<Value> = None;
+    let mut blocked_execs: u64 = 0;
+    let mut hit_block_cap = false;
     let mut examine = |x: &Execution<Vec<String>>, full: &[(usize, u32, Option<usize>)], n: u64| -> bool {
         let res: Vec<Vec<String>> = x.results.iter().map(|r| r.clone().unwrap_or_else(|| vec!["PANIC".to_string()])).collect();
         outcomes.insert(format!("{:?}", res));
@@ -868,19 +872,45 @@ pub fn sched_child(h_idx: usize, bound: usize, child: Option<usize>, stop_at: Op
                     if stop {
                         return;
                     }
+                    if x.deadlock {
+                        // a real deadlock: every thread waits in a lock / once-cell of the code under test
+                        deadlock_viol = Some(json!({"exec": n, "choices": full.iter().map(|c| c.0).collect::<Vec<_>>(), "observed": "DEADLOCK: every live thread waits in a synchronisation primitive of the code under test", "alone": format!("{:?}", baseline)}));
+                        deadlocked = true;
+                        stop = true;
+                        return;
+                    }
                     if let Some(e) = &x.error {
                         error = Some(e.clone());
                         stop = true;
                         return;
+                    }
+                    if x.infeasible {
+                        blocked_execs += 1;
+                        if blocked_execs >= 12 {
+                            stop = true;
+                            hit_block_cap = true;
+                        }
+                        return;
+                    }
+                    if x.forced > 0 {
+                        blocked_execs += 1;
+                        // every such execution costs a stall period: after a few the job stops (reported as capped)
+                        if blocked_execs >= 12 {
+                            stop = true;
+                            hit_block_cap = true;
+                        }
                     }
                     examine(x, full, n);
                     n += 1;
                 });
                 executions = stats.executions;
                 max_points = stats.max_points;
-                capped = stats.capped && stop_at.is_none();
+                capped = (stats.capped || hit_block_cap) && stop_at.is_none();
             }
         }
+    }
+    if viol.is_none() {
+        viol = deadlock_viol;
     }
     let out = json!({
         "executions": executions,
@@ -891,8 +921,13 @@ pub fn sched_child(h_idx: usize, bound: usize, child: Option<usize>, stop_at: Op
         "outcomes": outcomes.iter().take(64).collect::<Vec<_>>(),
         "violation": viol,
         "error": error,
+        "blocked_executions": blocked_execs,
     });
     println!("{}", out);
+    if deadlocked {
+        // the worker threads are lost; leave without joining anything
+        std::process::exit(0);
+    }
     jsonpath_rust::verif::set_hook(None);
     0
 }
